@@ -61,3 +61,17 @@ Fixpoint failures_from (i : N) (cs : list case) : list N :=
   | c :: r => if check c then failures_from (i + 1) r else i :: failures_from (i + 1) r
   end.
 Definition failures (cs : list case) : list N := failures_from 0 cs.
+
+(** the same cases against the core model (programs with inputs and normal queries only) *)
+From QV Require Import Engine.Core.
+Definition check_core (c : case) : bool :=
+  match c with
+  | mkCase p ops real =>
+      match first_diff 0 (crun_history p cinit ops) real with None => true | Some _ => false end
+  end.
+Fixpoint core_failures_from (i : N) (cs : list case) : list N :=
+  match cs with
+  | [] => []
+  | c :: r => if check_core c then core_failures_from (i + 1) r else i :: core_failures_from (i + 1) r
+  end.
+Definition core_failures (cs : list case) : list N := core_failures_from 0 cs.
